@@ -9,7 +9,7 @@ CLAIMS = {
                    'from the failed command to exit(); failure-budget guards (decrement only on failure and '
                    'only while non-zero, starts guarded, reaping not guarded); wait-status decoding guarded '
                    'by WIFEXITED; missing-source error guard and its precedence over Builder::Build; no '
-                   'failure edge of a fallible call reaches a success return in build.cc / ninja.cc.',
+                   'failure edge of a fallible call reaches a success return in build.cc / ninja.cc. Builder::Build returns the recorded exit code only after a command failure was recorded; an output without a build-log entry is dirty (known finding: generator rules are exempt, so a failed generator command is not retried).',
         'not_decided': 'which commands may legitimately start after a failure under a given schedule.',
     },
     'C06': {
@@ -24,7 +24,7 @@ CLAIMS = {
                    'command always reaches a function that releases on all of its paths, Abort releases all '
                    'active edges; process-exit sites reachable while slots are held are enumerated against a '
                    'reasoned table; Jobserver::Slot cannot be copied or forged (compile-fail witnesses); the '
-                   'console pool is the depth-1 pool.',
+                   'console pool is the depth-1 pool. A moved-from Jobserver::Slot is invalid on every path of both move operations (release-twice is a no-op).',
         'not_decided': 'the numeric -j / load-average capacity formula (CanRunMore), "never idles" and '
                        '"always terminates" (liveness).',
     },
@@ -68,7 +68,7 @@ CLAIMS = {
                    'a message; validation nodes are queued and never recursed into, AllInputsReady ignores them, '
                    'the driver clears the stack per queued node; after a dyndep load the re-scanned nodes are '
                    'exactly those un-marked beforehand and an in-plan dependent is never left marked; a failed '
-                   'scan / VerifyDAG never becomes a success return (graph.cc, AddTarget, dyndep re-plan).',
+                   'scan / VerifyDAG never becomes a success return (graph.cc, AddTarget, dyndep re-plan). Plan::UnmarkDependents descends through every not-yet-visited output (no other pruning); a dyndep load issued by the scan machinery is followed by a re-scan of the dependents (known finding: scan-time load in RecomputeNodeDirty); Builder::Build returns the recorded exit code only after a command failure was recorded and never ExitSuccess after storing an error text.',
         'not_decided': 'that the printed cycle is an actual cycle of the graph; completeness across dyndep re-scans.',
     },
     'C18': {
@@ -79,7 +79,7 @@ CLAIMS = {
                    'rspfile, or a build-log key under the dead guard (never inputs_/validations_); the three scopes '
                    'agree on the phony exclusion and are compared on the generator exclusion; all-edges/all-outputs '
                    'loops are full-range, depfile and rspfile are covered, dyndep files are loaded first (skipped '
-                   'only if absent or already loaded); by-target recursion marks before descending.',
+                   'only if absent or already loaded); by-target recursion marks before descending. Cleaner::RemoveEdgeFiles skips the depfile / rspfile only when the edge has none.',
         'not_decided': 'that a following build re-creates the removed files.',
     },
     'C01': {
@@ -110,7 +110,7 @@ CLAIMS = {
                    'by the same key; the dirty relations are strict; deps are recorded with Stat() of the same '
                    'output; restat pruning uses == and falls back to the start time; AlreadyUpToDate == '
                    '!more_to_do() and an up-to-date plan returns success without reaching Build; the build log '
-                   'is reopened lazily in append mode after Close().',
+                   'is reopened lazily in append mode after Close(). Plan::CleanNode prunes (un-want / recursion) only after RecomputeOutputsDirty re-examined that very edge.',
         'not_decided': 'that the times recorded at run time dominate the inputs\' times (clock / file system); '
                        'multi-session interplay.',
     },
@@ -124,7 +124,7 @@ CLAIMS = {
                    'dirty only with no inputs, no validations and a missing output, and adopts input mtimes only '
                    'while missing (max); CleanNode un-wants only under all-inputs-clean and outputs-clean, paired '
                    'with the counters, and the non-phony counter/status adjustments mirror EdgeWanted; edges whose '
-                   'outputs are ready are never inserted into the plan.',
+                   'outputs are ready are never inserted into the plan. Plan::CleanNode prunes (un-want / recursion) only after RecomputeOutputsDirty re-examined that very edge.',
         'not_decided': 'equality of the executed command set with a reference make-semantics model.',
     },
     'C10': {
@@ -152,7 +152,7 @@ CLAIMS = {
                    'LOAD_ERROR; Restat writes only mtime, from Stat, for entries selected by full equality; Recompact '
                    'writes no field, drops/erases only paths reported dead; IsPathDead is true only as Stat==0 of a '
                    'path without producer; rewrites go Close -> temp file -> fclose -> ReplaceContent (unlink then '
-                   'rename, failures propagated).',
+                   'rename, failures propagated). The log header is written exactly when a size/position query on the opened stream says the file is empty.',
         'not_decided': 'equality of the loaded state with a model folded over the complete lines for all byte prefixes; '
                        'buffer arithmetic inside LineReader.',
     },
@@ -168,7 +168,7 @@ CLAIMS = {
                    'Load reads; oversized records are refused before any write and the stdio buffer holds a whole '
                    'record; all fwrites precede one fflush and memory is updated only after it succeeded; the '
                    '"unchanged" shortcut compares mtime, count and every element (no unscaled memcmp); recompaction '
-                   'removes a stale temp, resets all ids, drops only empty/non-live entries, swaps, then replaces.',
+                   'removes a stale temp, resets all ids, drops only empty/non-live entries, swaps, then replaces. The deps-log header is written exactly when the opened file is empty; a path record enters the node table (set_id, nodes_.push_back) only after the checksum and duplicate-id tests passed.',
         'not_decided': '"exactly the complete records" for all byte strings; cross-session id consistency as a '
                        'run-time invariant; padding arithmetic values.',
     },
@@ -185,13 +185,13 @@ CLAIMS = {
                    '(compile-fail), build-level values are evaluated in the enclosing scope and paths in the edge '
                    'scope; input kinds are collected in order with their counters, stored after all AddIn calls and '
                    'kept in sync by later erases; manifest, default, command-line and clean paths are canonicalised '
-                   'before interning and no shell-escaped lookup feeds a node identity or file-system call.',
+                   'before interning and no shell-escaped lookup feeds a node identity or file-system call. The std::string overload of CanonicalizePath always delegates to the char* overload (one definition of node identity).',
         'not_decided': 'that the evaluated graph equals the one defined by the manual for every manifest; the lexer\'s '
                        'token grammar (varname alphabet, $-escapes) beyond the sentinel proof of C13.',
     },
     'C13': {
         'design': '5.13',
-        'technique': 'value-set abstract interpretation of the re2c scanners + recursion discipline over the whole-program call graph + interval bounds on file-derived values + null/emptiness discipline, with positive-control fixtures',
+        'technique': 'value-set abstract interpretation of the re2c scanners + recursion discipline over the whole-program call graph + interval bounds on file-derived values + null/emptiness discipline, with positive-control fixtures + abstract interpretation of position loops (progress variant) + consuming-call discipline of input-driven loops',
         'decides': 'for every re2c scanner (ReadToken, EatWhitespace, ReadIdent, ReadEvalString, DepfileParser::Parse) no '
                    'byte is read through the cursor after it may have passed the terminating NUL on any path (abstract '
                    'interpretation with the exact yybm tables), the cursor is stored past the NUL only with TEOF, scanner '
@@ -201,9 +201,8 @@ CLAIMS = {
                    'condition (known findings: include cycle, `-t targets depth 0`); nullable results (memchr, getenv, '
                    'fopen, Lookup*, GetDeps, GetBinding) are known non-null at every dereference; begin() of a container is '
                    'dereferenced only where it is known non-empty; std::get on the result variant is guarded by '
-                   'holds_alternative. Zero-expected rules are validated by planted controls on every run.',
-        'not_decided': 'memory safety in general (index arithmetic in ElideMiddle, CanonicalizePath, the in-place '
-                       'de-escaping writes of the depfile parser); absence of hangs (loop progress).',
+                   'holds_alternative. Zero-expected rules are validated by planted controls on every run. A local fixed-size array handed to a call with an explicit length is accessed within its size (interval bounds with return models for read/fread; the would-be length returned by snprintf is not a bound). Loop progress: every loop whose condition compares a local position/pointer with a bound or tests the byte it points at advances that position on every trip (disjunctive abstract interpretation with find/memchr/strpbrk models, nv/loopprog.py; undecided loops are listed), and every input-driven loop (for(;;), while(ReadLine/PeekToken/getopt)) has no way round without a consuming call.',
+        'not_decided': 'memory safety in general (index arithmetic in ElideMiddle, CanonicalizePath, the in-place de-escaping writes of the depfile parser); termination of the re2c scanner loops beyond the NUL sentinel argument, of worklist / plan loops and of loops listed as undecided.',
     },
     'C16': {
         'design': '5.16',
@@ -215,7 +214,7 @@ CLAIMS = {
                    'IsKnownShellSafeCharacter accepts (enumerated over its CFG) is within the shell-inert set, names of such bytes '
                    'are appended verbatim once, all others are wrapped in single quotes first-to-last; the response file is '
                    'written in StartEdge with exactly GetBinding("rspfile_content") whenever the rule has one, and removed only '
-                   'after success and without -d keeprsp.',
+                   'after success and without -d keeprsp. RealDiskInterface::WriteFile opens truncating, writes the whole string once and succeeds only after fwrite and fclose succeeded.',
         'not_decided': 'that /bin/sh reconstructs exactly one word for every name (the quote-escaping sequence needs a shell).',
     },
     'C19': {
@@ -243,7 +242,7 @@ CLAIMS = {
                    'regardless of the result, plan totals mirror command_edges_ under the same non-phony guard and are '
                    'cleared between builds; the console is locked/unlocked only for console-pool edges (and unconditionally '
                    'unlocked at BuildFinished), nothing is written while locked, held-back output keeps its explicit length '
-                   'and is flushed before the buffer is cleared.',
+                   'and is flushed before the buffer is cleared. What is flushed on console unlock is cleared on every path before SetConsoleLocked returns; StripAnsiEscapeCodes walks the whole input in constant steps, copies every non-ESC byte and leaves its loop early only when ESC is the last byte.',
         'not_decided': 'non-interleaving and counter consistency as trace properties over schedules; elision and percentage arithmetic.',
     },
     'C07': {
